@@ -183,11 +183,16 @@ fn text(rng: &mut Rng) -> String {
         2 => 2,
         _ => rng.range(1, 16),
     };
-    let profile = rng.below(5);
+    let profile = rng.below(6);
     let mut s = String::new();
     let mut i = 0;
     while i < n {
-        if profile >= 3 {
+        if profile == 5 {
+            // pure ASCII with line endings: the only text on which an `is_ascii()` shortcut is taken, and CR LF
+            // is a two-byte cluster in grapheme mode
+            s.push_str(*rng.pick(&["a", "b", " ", "\r\n", "\r\n", "\n", "\r", "\t", "x"]));
+            i += 1;
+        } else if profile >= 3 {
             // runs of equal byte length (exercises the run-length encoding)
             let u = unit(rng, 0);
             let r = rng.range(1, 5).min(n - i);
@@ -470,7 +475,7 @@ impl Prop for C16 {
         let mut tags = vec![];
         tags.push(if g { "g".to_string() } else { "cp".to_string() });
         // cluster byte lengths straight from the segmentation (not through the RLE)
-        let lens: Vec<usize> = CharString::split(&s, g).map(str::len).collect();
+        let lens: Vec<usize> = vh::split_clusters(&s, g).map(str::len).collect();
         // informational: possible_byte_substrings shares the offset arithmetic (no model, no clause)
         if max < 64 {
             let s7 = s.clone();
